@@ -211,6 +211,8 @@ def run(tier, seed):
         nd = rng.choice([1, 2, 3, 6])
         A = np.array([[rng.gauss(0, 0.1) for _ in range(nd)] for _ in range(nd)]); H0 = 0.5 * (A + A.T) + 0.3 * np.eye(nd)
         x0 = [rng.uniform(-1, 1) for _ in range(nd)]; E0 = rng.uniform(-1, 1); mass = [10 ** rng.uniform(2, 4) for _ in range(nd)]
+        if it % 4 == 3:
+            x0 = [rng.randint(-2, 2) for _ in range(nd)]; res.count("model/harmonic-integer-x0")      # integer-typed equilibrium position (e.g. from a json file)
         hm = HarmonicModel(x0, E0, H0, mass); X = np.array([rng.uniform(-2, 2) for _ in range(nd)])
         el = hm.update(X)
         hc.append(tup(fls(x0), fl(E0), flss(H0), fls(X), fl(float(el.hamiltonian()[0])), fls(el._force[0]))); hmeta.append(dict(model="harmonic", ndim=nd))
